@@ -48,6 +48,11 @@ func (w wrappedCodecRegistry) StoreOrSwap(typ reflect.Type, tag string, c Codec)
 	return c
 }
 
+// maxFieldIndex is the largest field index a plenc tag can have. It is the
+// largest field number protobuf allows. Fields are found by index in a table
+// when decoding, so the index also bounds the size of that table.
+const maxFieldIndex = 1<<29 - 1
+
 func BuildStructCodec(p CodecBuilder, registry CodecRegistry, typ reflect.Type, tag string) (Codec, error) {
 	if typ.Kind() != reflect.Struct {
 		return nil, fmt.Errorf("type must be a struct to build a struct codec")
@@ -95,6 +100,9 @@ func BuildStructCodec(p CodecBuilder, registry CodecRegistry, typ reflect.Type, 
 		}
 		if index < 0 {
 			return nil, fmt.Errorf("negative index %d in plenc tag on field %d %s of %s", index, i, sf.Name, typ.Name())
+		}
+		if index > maxFieldIndex {
+			return nil, fmt.Errorf("index %d in plenc tag on field %d %s of %s is too large", index, i, sf.Name, typ.Name())
 		}
 
 		field := &c.fields[count]
